@@ -17,6 +17,8 @@
    place of the one blocked sender): "plain" (sent by the publisher itself), "relayed" (re-published by
    another host with the original publisher in the message: attributed to the original publisher, whose
    ID the allow filter sees), "self" (a re-publication by this very host: ignored before any filter).   *)
+(* Re-publication (WithResend) is a side effect of delivering a direct announcement, never a condition of it: the harness also
+   runs a receiver whose topic refuses every re-publication -- the announcement is delivered all the same, once.             *)
 EXTENDS Integers, Sequences, FiniteSets, TLC, VerifIO
 
 CONSTANTS Cids, Peers, Allowed, AddrClasses, K, MaxOps, MaxCloses, EXPORT, FIXED, PubKinds
